@@ -227,6 +227,9 @@ func (c *Ctx) WhoMayWrite(rule, what string, field *types.Var, allowed []string,
 		seen[ref.Where]++
 		if allow[ref.Where] {
 			c.R.Pass(rule, fmt.Sprintf("write %s <- %s#%d", what, ref.Where, seen[ref.Where]), c.Pos(ref.Pos), ref.Kind+" in tabled writer", false)
+		} else if via, ok := c.privateHelperOf(ref.Where, allow, 2); ok {
+			// an unexported helper that is only ever called, and only by tabled writers, does not widen the table
+			c.R.Pass(rule, fmt.Sprintf("write %s <- %s#%d", what, ref.Where, seen[ref.Where]), c.Pos(ref.Pos), ref.Kind+" in a private helper of "+via, false)
 		} else {
 			c.R.Fail(rule, fmt.Sprintf("write %s <- %s", what, ref.Where), c.Pos(ref.Pos),
 				fmt.Sprintf("%s of %s in %s, which is not in the closed writer table {%s}", ref.Kind, what, ref.Where, strings.Join(allowed, ", ")))
